@@ -566,7 +566,7 @@ func H_C03_frame() {
 	shape := vDrawOCI("oci.", 1, 1, 1)
 	o := vMkOCI(shape)
 	before := vMkOCI(shape)
-	if nondetBool("initial-mounts-not-in-depth-order") {
+	if nondetChoice("initial-mounts-not-in-depth-order", 2) == 1 {
 		// a deeper destination listed before a shallower one: only an edit that names mounts may reorder them
 		for _, x := range []*oci.Spec{o, before} {
 			x.Mounts = append(x.Mounts, oci.Mount{Destination: "/deep/er", Source: "/s1"}, oci.Mount{Destination: "/top", Source: "/s2"})
